@@ -25,7 +25,7 @@ type c09Case struct {
 	Ins      []c09Ins   `json:"ins"`
 }
 
-const c09Rule = "case = well-formed IPFIX or NetFlow v9 message M (generator of C03/C06, templates pre-announced and/or in-message) + 0..3 undecodable sets U inserted at drawn positions: " +
+const c09Rule = "case = well-formed IPFIX or NetFlow v9 message M (generator of C03/C06, templates pre-announced and/or in-message) + 0..3 undecodable sets U inserted at drawn positions (in 1 case of 20 also 15..65 small unknown-template sets): " +
 	"unknown template id with any body (random, zeros, or bytes that look like valid sets), reserved id 4..255 with any body, data for an announced template that names an element missing from the information model (also among its scope fields; also when that definition supersedes an earlier, fully known definition of the same id), data for a template that the message itself announces only later; " +
 	"oracle (a) insertion: records(M+U) == records(M) and a non-empty unknown-template set is reported as an error; " +
 	"(b) truncation, enumerated for EVERY offset 0..len of M and of M+U against an identically prepared cache: records of the prefix (nil message = none) form a prefix of the full decode's records; " +
@@ -90,6 +90,16 @@ func genC09(t *rapid.T, env *wire.GenEnv) c09Case {
 		return b
 	}
 	n := rapid.IntRange(0, 3).Draw(t, "nins")
+	many := 0
+	if rapid.IntRange(0, 19).Draw(t, "manyins") == 0 {
+		// many undecodable sets in one message (counts around the 4-, 5- and 6-bit marks): small unknown-template
+		// sets spread over the positions, next to the 0..3 elaborate ones
+		many = rapid.SampledFrom([]int{15, 16, 17, 18, 31, 32, 33, 64, 65}).Draw(t, "nmanyins")
+	}
+	for i := 0; i < many; i++ {
+		c.Ins = append(c.Ins, c09Ins{Pos: rapid.IntRange(0, len(c.Sc.Main.Sets)).Draw(t, "manypos"), Kind: "unknown-template",
+			Set: wire.Set{Kind: "raw", RawID: freshID(), RawBody: []byte{byte(i), 1, 2, 3}}})
+	}
 	for i := 0; i < n; i++ {
 		in := c09Ins{Pos: rapid.IntRange(0, len(c.Sc.Main.Sets)).Draw(t, "pos")}
 		// data for a template that this very message announces only later: unknown (and skipped) where it
